@@ -56,6 +56,51 @@ func init() {
 	probes["O53"] = probeO53
 	probes["O54"] = probeO54
 	probes["O55"] = probeO55
+	probes["O69"] = probeBounded(func() {
+		// (a) a path argument that leads into the value itself
+		c, v := ucfg.New(), ucfg.New()
+		c.SetChild("a", -1, v)
+		c.SetChild("a.b", -1, v, ucfg.PathSep("."))
+		var m map[string]interface{}
+		c.Unpack(&m)
+		// (b) one config below two parents, then one of the parents below it
+		a, b, x := ucfg.New(), ucfg.New(), ucfg.New()
+		a.SetChild("x", -1, x)
+		b.SetChild("x", -1, x)
+		x.SetChild("loop", -1, b)
+		b.Unpack(&m)
+		// (c) the parent link of a replaced child still names its former parent
+		r, o := ucfg.New(), ucfg.New()
+		r.SetChild("a", -1, ucfg.New())
+		h, _ := r.Child("a", -1)
+		r.SetChild("a", -1, o)
+		h.SetChild("a", -1, r)
+		_ = r.Path(".")
+	})
+	probes["O70"] = probeBounded(func() {
+		type s struct{ X int }
+		type ps *s
+		c, _ := ucfg.NewFrom(map[string]interface{}{"f": map[string]interface{}{"x": 1}, "g": map[string]interface{}{"k": map[string]interface{}{"x": 1}}})
+		var to struct {
+			F ps
+			G map[string]*ps
+		}
+		c.Unpack(&to)
+	})
+	probes["O71"] = probePanics(func() {
+		c, _ := ucfg.NewFrom(map[string]interface{}{"f": map[string]interface{}{"x": 1}})
+		var to struct {
+			F interface{ Unpack(*ucfg.Config) error }
+		}
+		c.Unpack(&to)
+	})
+	probes["O72"] = probePanics(func() {
+		c, _ := ucfg.NewFrom(map[string]interface{}{"f": 1})
+		to := struct {
+			F interface{ Unpack(interface{}) error }
+		}{F: &heldUnpacker{}}
+		c.Unpack(&to)
+	})
 	probes["O68"] = func() (bool, string) {
 		return guard(func() (bool, string) {
 			c, _ := ucfg.NewFrom(map[string]interface{}{"m": map[string]interface{}{"q": []interface{}{"v", "${nope}"}}}, append(append([]ucfg.Option{}, sepVar...), ucfg.MetaData(ucfg.Meta{Source: "f.yml"}))...)
@@ -252,6 +297,10 @@ func probeO22() (bool, string) {
 		return err != nil || t.L != "info", fmt.Sprint(err, t)
 	})
 }
+
+type heldUnpacker struct{ V interface{} }
+
+func (u *heldUnpacker) Unpack(v interface{}) error { u.V = v; return nil }
 
 func guard(f func() (bool, string)) (rep bool, detail string) {
 	defer func() {
